@@ -697,7 +697,10 @@ def mix_and_split_variants(w, cfg):
 
 def csc_configs(tier):
     fams = [('ab', 'P3', 'l', 'g', 'name'), ('mixed', 'P3', 'l', 'l', 'name'), ('ab', 'P2', 'l', 'g', 'use'), ('mixed-multi', 'P2', 'g', 'gl', 'use'),
-            ('ab-multi', 'P2', 'l', 'gl', 'name')]
+            ('ab-multi', 'P2', 'l', 'gl', 'name'),
+            # both a second stream AND the mixed stream are handed over (the mixture holds more than a + b, e.g. two outlets of a feed split
+            # three ways): the mixed flow is the reference (added after seeded change C20_10)
+            ('ab+mixed', 'P3', 'l', 'l', 'name'), ('ab+mixed', 'P2', 'l', 'g', 'name')]
     if tier != 'quick':
         fams += [('ab', 'Q4', 'g', 'l', 'name'), ('mixed-multi', 'P3', 'L', 'Ll', 'name'), ('ab', 'P3', 'l', 'l', 'use'), ('mixed', 'P3', 'l', 'g', 'use'),
                  ('ab-multi', 'P3', 'g', 'ls', 'use')]
@@ -724,6 +727,14 @@ def chemical_splits_channels(w, cfg):
         ta, tb = _tot(a), _tot(b)
         mixed_t = {c: ta[c] + tb[c] for c in ta}
         a_t = ta
+    elif how == 'ab+mixed':
+        a, _ = W.make_stream(w, 'a', IDs, cfg['a'])
+        b, _ = W.make_stream(w, 'b', IDs, cfg['o'])
+        m, _ = W.make_stream(w, 'm', IDs, cfg['o'])
+        ta, tb, tm = _tot(a), _tot(b), _tot(m)
+        for c in ta: w.assume(w.le(ta[c] + tb[c], tm[c]))    # requires: `a` and `b` are parts of the mixed stream
+        args, kw = (a, b), {'mixed': m}
+        mixed_t, a_t = tm, ta
     elif how == 'mixed':
         a, _ = W.make_stream(w, 'a', IDs, cfg['a'], present=None if two is None else _present(pkg, cfg['a'], 'two-maybe'))
         m, _ = W.make_stream(w, 'm', IDs, cfg['o'], present=None if two is None else _present(pkg, cfg['o'], 'two-maybe'))
